@@ -20,7 +20,7 @@ type c14Case struct {
 	Tile     string `json:"tile"`     // hex, 1..64 bytes
 	TileKind string `json:"tile_kind"`
 	NumByte  int    `json:"num_byte,omitempty"`
-	Both     bool   `json:"both"` // run the parallel twin as well (after the sequential run did not crash)
+	Both     bool   `json:"both"`                          // run the parallel twin as well (after the sequential run did not crash)
 	Prior    int    `json:"prior_healthy_bytes,omitempty"` // history: an earlier single-shot detection of this many bytes on a healthy source
 	PriorWF  string `json:"prior_workflow,omitempty"`      // history for the workflows: which detection ran dry (after Prior zero bytes) earlier in this process ("" = the parallel twin)
 }
@@ -234,7 +234,7 @@ func TestC14Enum(t *testing.T) {
 	for n := envInt("VERIF_LO", 16); n <= envInt("VERIF_HI", 400); n++ {
 		cases = append(cases, c14Case{Workflow: "single", Tile: "00", TileKind: "constant", NumByte: n}, c14Case{Workflow: "single", Tile: "ff", TileKind: "constant", NumByte: n})
 	}
-	for _, n := range []int{65535, 65536, 65537, 131072, 1 << 20, 1 << 22, 1 << 24} {
+	for _, n := range []int{65535, 65536, 65537, 131072, 1 << 20, 1 << 22, 1 << 24, 200000000, 1 << 28} { // up to 2^31 bits (products of counts near 2^63)
 		cases = append(cases, c14Case{Workflow: "single", Tile: "00", TileKind: "constant", NumByte: n}, c14Case{Workflow: "single", Tile: "ff", TileKind: "constant", NumByte: n})
 	}
 	// the sparse tile that crashed the pinned tree (D1): one set bit at bit position 3 mod 4 of a 64-byte tile
